@@ -558,10 +558,31 @@ def guarded_pure(fn, *a, **kw):
     for i, (b, c) in enumerate(zip(before, after)):
         if b != c:
             return ImplError('InputMutated: argument %d was modified by the call (bitwise comparison before/after)' % i)
+    # the caller owns what it gets back: overwrite the returned arrays (unless one IS an argument's own record, which a
+    # function may legitimately hand back) and ask again -- a result served from a memo that the first result aliases
+    # comes back changed
+    import copy
+    import numpy as np
+    keep = copy.deepcopy(r1)
+    ins = [x for x in list(a) + list(kw.values()) if isinstance(x, np.ndarray)]
+    ins += [v for v in (getattr(x, '_values', None) for x in list(a) + list(kw.values())) if isinstance(v, np.ndarray)]
+    scribbled = 0
+    for o in (r1 if isinstance(r1, (tuple, list)) else [r1]):
+        if isinstance(o, np.ndarray) and o.size and o.dtype.kind in 'fiuc' and not any(np.may_share_memory(o, i) for i in ins):
+            try:
+                o += 1
+                scribbled += 1
+            except Exception:  # noqa  (read-only result: nothing to overwrite)
+                pass
+    after = [_snap(x) for x in a] + [_snap(x) for x in kw.values()]
+    for i, (b, c) in enumerate(zip(before, after)):
+        if b != c:
+            return ImplError('OutputAliasesInput: overwriting the returned array changed argument %d' % i)
     try:
         r2 = fn(*a, **kw)
     except Exception as e:  # noqa
         return ImplError('SecondCall%s: %s' % (type(e).__name__, e))
-    if not _same(r1, r2):
-        return ImplError('NotRepeatable: a second call on the same argument objects returned a different result')
-    return r1
+    if not _same(keep, r2):
+        return ImplError('NotRepeatable: a second call on the same argument objects returned a different result'
+                         + (' (after the caller overwrote the first returned array in place)' if scribbled else ''))
+    return keep
